@@ -1,52 +1,97 @@
-// C29 harness: hostile object keys, upload ids, copy sources and batch-delete keys
-// against every object / multipart / copy / tagging route of the REAL S3 gateway
+// C29 harness: hostile bucket names, object keys, upload ids, copy sources,
+// batch-delete keys, listing prefixes / markers and POST-upload keys against every
+// object / multipart / copy / tagging / listing / bucket route of the REAL S3 gateway
 // router, sent as RAW request targets (nothing is cleaned on the client side), over
-// the in-process filer of package s3env.  Recorded per request: the filer-facing
-// calls (gRPC + HTTP, before the filer's ServeMux), every FilerStore call, the
-// status class, whether anything outside the bucket changed and whether foreign
-// content came back.  A second stream of cases runs path strings through Go's
-// path.Clean / filepath.Join / http.ServeMux / FullPath.DirAndName / filepath.Base /
-// filepath.Dir for the model's `clean` family.
+// the in-process filer of package s3env holding one of three fixtures.  Recorded per
+// request: the filer-facing calls (gRPC + HTTP, before the filer's ServeMux), every
+// FilerStore call, the status class, whether anything outside the bucket changed and
+// whether foreign content came back.  A second stream of cases runs path strings
+// through Go's path.Clean / filepath.Join / http.ServeMux / FullPath.DirAndName /
+// filepath.Base / filepath.Dir for the model's `clean` family; the first cases of every
+// run are the snapshots of the three fixtures as built.
 package main
 
 import (
+	"bufio"
+	"bytes"
+	"crypto/hmac"
+	"crypto/sha256"
+	"encoding/base64"
+	"encoding/hex"
 	"fmt"
+	"io/ioutil"
+	"mime/multipart"
+	"net/http"
+	"net/http/httptest"
 	"net/url"
 	"path"
 	"path/filepath"
 	"regexp"
 	"strings"
 
+	"github.com/chrislusf/seaweedfs/weed/pb/iam_pb"
+	"github.com/chrislusf/seaweedfs/weed/s3api"
 	"github.com/chrislusf/seaweedfs/weed/util"
+	"github.com/gorilla/mux"
 
 	"verifharness/hx"
 	"verifharness/s3env"
 )
 
-// ---------- fixture (must equal fx0 of coq/check/C29.v) ----------
+// ---------- fixtures (must equal fx0 / fx1 / fx2 of coq/check/C29.v: CFix cases) ----------
 
-const bucket = "b"
-
-var victimMarks = []string{"VICTIMDATA", "KEEPDATA", "VPARTDATA", "SECRETDATA"}
-
-func build(e *s3env.Env) {
-	e.Wipe("/")
-	e.Mkdir("/buckets/b")
-	e.PutFile("/buckets/b/obj", []byte("mine"))
-	e.PutFile("/buckets/b/x/y", []byte("xy"))
-	e.Mkdir("/buckets/b/.uploads/u1")
-	e.PutFile("/buckets/b/.uploads/u1/0001.part", []byte("part1"))
-	e.Mkdir("/buckets/other")
-	e.PutFile("/buckets/other/obj", []byte("VICTIMDATA"))
-	e.PutFile("/buckets/other/keep", []byte("KEEPDATA"))
-	e.PutFile("/buckets/other/.uploads/u2/0001.part", []byte("VPARTDATA"))
-	e.PutFile("/etc/secret", []byte("SECRETDATA"))
+type fent struct {
+	path string
+	dir  bool // an (empty) directory created explicitly; files create their parents
 }
 
-func outsideSnapshot(e *s3env.Env) string {
+var fixtures = [][]fent{
+	{ // fx0
+		{"/buckets/b/obj", false}, {"/buckets/b/x/y", false}, {"/buckets/b/.uploads/u1/0001.part", false},
+		{"/buckets/other/obj", false}, {"/buckets/other/keep", false}, {"/buckets/other/.uploads/u2/0001.part", false},
+		{"/etc/secret", false},
+	},
+	{ // fx1
+		{"/buckets/b/.uploads/u1", false}, {"/buckets/b/e", true}, {"/buckets/b/obj/k", false}, {"/buckets/b/x", false},
+		{"/buckets/bb/obj", false}, {"/buckets/other/.uploads/u1/0001.part", false}, {"/buckets/other/obj", false},
+		{"/etc/secret", false},
+	},
+	{ // fx2
+		{"/b/obj", false}, {"/buckets/.uploads/u1/0001.part", false}, {"/buckets/b", true},
+		{"/buckets/other/new", false}, {"/buckets/other/x/y", false}, {"/obj", false},
+	},
+}
+
+func marker(p string) string { return "DATA:" + p + ";" }
+
+func build(e *s3env.Env, fx int) {
+	e.Wipe("/")
+	for _, f := range fixtures[fx] {
+		if f.dir {
+			e.Mkdir(f.path)
+		} else {
+			e.PutFile(f.path, []byte(marker(f.path)))
+		}
+	}
+}
+
+// inOwn: p is the bucket directory of a well-named bucket or lies inside it.
+func inOwn(bucket, p string) bool {
+	if badBucket(bucket) {
+		return false
+	}
+	d := "/buckets/" + bucket
+	return p == d || strings.HasPrefix(p, d+"/")
+}
+
+func badBucket(b string) bool {
+	return b == "" || b == "." || b == ".." || strings.ContainsAny(b, "/%")
+}
+
+func outsideSnapshot(e *s3env.Env, bucket string) string {
 	var sb strings.Builder
 	for _, l := range strings.Split(e.SnapshotString("/"), "\n") {
-		if strings.HasPrefix(l, "/buckets/b/") || strings.HasPrefix(l, "/buckets/b ") {
+		if i := strings.Index(l, " dir="); i > 0 && inOwn(bucket, l[:i]) {
 			continue
 		}
 		sb.WriteString(l)
@@ -59,7 +104,8 @@ func outsideSnapshot(e *s3env.Env) string {
 
 var segIdent = map[string]string{"": "s_", "buckets": "sbuckets", "b": "sb", "other": "sother", "obj": "sobj", "keep": "skeep",
 	"x": "sx", "y": "sy", "new": "snew", "..": "sdd", ".": "sd1", ".uploads": "sup", "u1": "su1", "u2": "su2", "etc": "setc",
-	"secret": "ssecret", "0001.part": "sp1", "0002.part": "sp2", "UUID": "suuid", "%2e%2e": "spdd", "k": "sk"}
+	"secret": "ssecret", "0001.part": "sp1", "0002.part": "sp2", "UUID": "suuid", "%2e%2e": "spdd", "k": "sk",
+	"bb": "sbb", "nb": "snb", "oth": "soth", "e": "se", "a": "sa", "%2f": "spct2f", "%252e%252e": "spdd2"}
 
 func coqSeg(s string) string {
 	if id, ok := segIdent[s]; ok {
@@ -84,27 +130,31 @@ var uuidRe = regexp.MustCompile(`[0-9a-f]{8}-[0-9a-f]{4}-[0-9a-f]{4}-[0-9a-f]{4}
 
 func deUUID(s string) string { return uuidRe.ReplaceAllString(s, "UUID") }
 
-func coqCall(c s3env.FilerCall) string {
+// coqCall prints one filer-facing call; ok = false for the two collection RPCs, which
+// carry no filer path (CollectionList before PutBucket, DeleteCollection in DeleteBucket).
+func coqCall(c s3env.FilerCall) (string, bool) {
 	d, n := deUUID(c.Dir), deUUID(c.Name)
 	switch c.Method {
 	case "HTTP GET":
-		return "Http MGet " + coqStr(d)
+		return "Http MGet " + coqStr(d), true
 	case "HTTP HEAD":
-		return "Http MHead " + coqStr(d)
+		return "Http MHead " + coqStr(d), true
 	case "HTTP PUT":
-		return "Http MPut " + coqStr(d)
+		return "Http MPut " + coqStr(d), true
 	case "HTTP DELETE":
-		return "Http MDelete " + coqStr(d)
+		return "Http MDelete " + coqStr(d), true
 	case "LookupDirectoryEntry":
-		return "GLookup " + coqStr(d) + " " + coqStr(n)
+		return "GLookup " + coqStr(d) + " " + coqStr(n), true
 	case "ListEntries":
-		return "GList " + coqStr(d)
+		return "GList " + coqStr(d), true
 	case "CreateEntry":
-		return "GCreate " + coqStr(d) + " " + coqStr(n) + " " + hx.Bool(c.IsDir)
+		return "GCreate " + coqStr(d) + " " + coqStr(n) + " " + hx.Bool(c.IsDir), true
 	case "UpdateEntry":
-		return "GUpdate " + coqStr(d) + " " + coqStr(n)
+		return "GUpdate " + coqStr(d) + " " + coqStr(n), true
 	case "DeleteEntry":
-		return "GDelete " + coqStr(d) + " " + coqStr(n) + " " + hx.Bool(c.Recursive)
+		return "GDelete " + coqStr(d) + " " + coqStr(n) + " " + hx.Bool(c.Recursive), true
+	case "CollectionList", "DeleteCollection":
+		return "", false
 	}
 	panic("unexpected filer call " + c.Method)
 }
@@ -114,27 +164,35 @@ var sopName = map[string]string{"Find": "SFind", "List": "SList", "Insert": "SIn
 // ---------- request generation ----------
 
 type reqSpec struct {
+	fx      int
 	route   string // Coq constructor
-	rawKey  string // raw (escaped) request path behind /b/
-	object  string // decoded: what the router hands to the handler (mux var "object")
+	bucket  string // decoded bucket name (mux var "bucket")
+	rawBkt  string // as written in the request target
+	rawKey  string // raw (escaped) request path behind /<bucket>/
+	object  string // decoded: what the router hands to the handler (mux var "object"); RPostPolicy: the form key
 	upload  string
 	part    int
 	src     string
 	replace bool
 	keys    []string
+	v2      bool // RList
+	prefix  string
+	marker  string
+	delim   bool
 	kind    string
 }
 
-var keySegs = []string{"x", "y", "obj", "new", "..", "..", ".", "", ".uploads", "u1", "other", "etc", "secret", "b", "buckets", "0001.part", "%2e%2e"}
+var keySegs = []string{"x", "y", "obj", "new", "..", "..", ".", "", ".uploads", "u1", "other", "etc", "secret", "b", "buckets", "0001.part", "%2e%2e", "bb", "e", "%2f", "%252e%252e"}
 
 func genKey(r *hx.Rng) string {
 	switch r.Intn(10) {
 	case 0:
-		return r.PickStr([]string{"obj", "new", "x/y", "x/new", "new/k"})
+		return r.PickStr([]string{"obj", "new", "x/y", "x/new", "new/k", "obj/k", "e/new"})
 	case 1:
-		return r.PickStr([]string{"x/../../other/obj", "../other/obj", "../../etc/secret", "x/../../other/nd/", "../other", "..", "x/..", ".", "../..", "../../.."})
+		return r.PickStr([]string{"x/../../other/obj", "../other/obj", "../../etc/secret", "x/../../other/nd/", "../other", "..", "x/..", ".", "../..", "../../..",
+			"x/../obj", "x/../x/y", "x/y/../..", "new/../obj", "../b/obj", "x/../../b/obj", "../bb/obj", "x/../", "x/y/../../", "../.uploads/u1/0001.part"})
 	case 2:
-		return r.PickStr([]string{".uploads/u1/0001.part", ".uploads/u1", ".uploads/new", "x/../.uploads/u1/0001.part", ".uploads/"})
+		return r.PickStr([]string{".uploads/u1/0001.part", ".uploads/u1", ".uploads/new", "x/../.uploads/u1/0001.part", ".uploads/", ".uploads/../obj", ".uploads/u1/../../obj", "x/.uploads/k", ".uploads"})
 	}
 	n := r.Range(1, 6)
 	segs := make([]string, n)
@@ -177,11 +235,18 @@ func rawOf(r *hx.Rng, key string) string {
 	return sb.String()
 }
 
-var uploadIds = []string{"u1", "u1", "nope", "../u1", "../../other/.uploads/u2", "../..", "../../..", "u1/", "./u1", "u1/../u1", "../../other", "../x", "u1/../../obj", "%2e%2e/%2e%2e/other/.uploads/u2"}
+var uploadIds = []string{"u1", "u1", "nope", "../u1", "../../other/.uploads/u2", "../..", "../../..", "u1/", "./u1", "u1/../u1", "../../other", "../x", "u1/../../obj",
+	"%2e%2e/%2e%2e/other/.uploads/u2", "..", "../../b/.uploads/u1", "u2", "%252e%252e/x", "u1%2f..%2f..%2fobj"}
 var copySources = []string{"b/obj", "/b/obj", "other/obj", "b/x/y", "b/../other/obj", "/b/x/../../etc/secret", "../etc/secret", "b/%2e%2e/other/obj",
-	"b/%252e%252e/other/obj", "b/.uploads/u1/0001.part", "other/.uploads/u2/0001.part", "b/", "nobucket/x", "b/nope", "b/x/", "./b/obj", "b//obj"}
+	"b/%252e%252e/other/obj", "b/.uploads/u1/0001.part", "other/.uploads/u2/0001.part", "b/", "nobucket/x", "b/nope", "b/x/", "./b/obj", "b//obj",
+	"b/../b/obj", "b/x/../obj", "other/../b/obj", "b/x/../.uploads/u1/0001.part", "b%2F..%2Fother%2Fobj", "b/%25252e%25252e/other/obj", "b/x%252f..%252f..%252fother%252fobj",
+	"bb/obj", "other/x/y", "b/obj/k", "../buckets/b/obj", "%2e%2e/etc/secret", "b/%2e%2e/%2e%2e/etc/secret"}
 
-var routes = []string{"RPut", "RGet", "RHead", "RDelete", "RBatchDelete", "RCopy", "RCopyPart", "RNewUpload", "RPutPart", "RComplete", "RAbort", "RListParts", "RGetTag", "RPutTag", "RDelTag"}
+var listPrefixes = []string{"", "", "x/", "x", "obj", "../other/", "../", "x/../", ".uploads/", "../../etc/", "/x/", "x//", "x/../../other/", "x/y", "other/", "..", "x/../x/", "./", "e/", "obj/", "../b/", "../bb/"}
+var listMarkers = []string{"", "", "", "x/y", "x", "../other/a", "x/../../other/a", "/a", "a//b", ".uploads/u1/0001.part", "..", "../", "x/../obj", "obj/k", "x/../../etc/a", "e/a/b"}
+
+var routes = []string{"RPut", "RGet", "RHead", "RDelete", "RBatchDelete", "RCopy", "RCopyPart", "RNewUpload", "RPutPart", "RComplete", "RAbort", "RListParts", "RGetTag", "RPutTag", "RDelTag",
+	"RList", "RList", "RListUploads", "RPutBucket", "RDeleteBucket", "RHeadBucket", "RPostPolicy", "RPostPolicy"}
 
 const tagBody = `<Tagging xmlns="http://s3.amazonaws.com/doc/2006-03-01/"><TagSet><Tag><Key>k</Key><Value>v</Value></Tag></TagSet></Tagging>`
 
@@ -191,9 +256,90 @@ func xmlEscape(s string) string {
 	return strings.ReplaceAll(s, ">", "&gt;")
 }
 
+// ---------- the POST-upload route needs an identity: a second gateway on the same filer ----------
+
+const (
+	accessKey = "AKIDC29"
+	secretKey = "c29-secret-key"
+	amzDay    = "20200102"
+	region    = "us-east-1"
+)
+
+type world struct {
+	e       *s3env.Env
+	router2 *mux.Router
+}
+
+func newWorld() *world {
+	e := s3env.New(s3env.Options{})
+	w := &world{e: e, router2: mux.NewRouter().SkipClean(true)}
+	cfg := &iam_pb.S3ApiConfiguration{Identities: []*iam_pb.Identity{{
+		Name:        "c29",
+		Credentials: []*iam_pb.Credential{{AccessKey: accessKey, SecretKey: secretKey}},
+		Actions:     []string{"Admin"},
+	}}}
+	if _, err := s3api.VerifNewS3ApiServer(w.router2, cfg, e.FilerHTTPAddr, e.FilerGrpcAddr, ""); err != nil {
+		panic(err)
+	}
+	return w
+}
+
+func hm(key []byte, data string) []byte {
+	h := hmac.New(sha256.New, key)
+	h.Write([]byte(data))
+	return h.Sum(nil)
+}
+
+// postPolicy sends a browser-style POST upload (signed policy, SigV4) of "posted" with the
+// given form key to /<rawBucket> through the gateway with the identity.
+func (w *world) postPolicy(rawBucket, key string) *s3env.Resp {
+	policy := base64.StdEncoding.EncodeToString([]byte(`{"expiration":"2099-01-01T00:00:00.000Z","conditions":[["starts-with","$key",""]]}`))
+	k := hm([]byte("AWS4"+secretKey), amzDay)
+	k = hm(k, region)
+	k = hm(k, "s3")
+	k = hm(k, "aws4_request")
+	sig := hex.EncodeToString(hm(k, policy))
+	var body bytes.Buffer
+	mw := multipart.NewWriter(&body)
+	hx.Must(mw.WriteField("key", key))
+	hx.Must(mw.WriteField("policy", policy))
+	hx.Must(mw.WriteField("x-amz-credential", accessKey+"/"+amzDay+"/"+region+"/s3/aws4_request"))
+	hx.Must(mw.WriteField("x-amz-algorithm", "AWS4-HMAC-SHA256"))
+	hx.Must(mw.WriteField("x-amz-date", amzDay+"T030405Z"))
+	hx.Must(mw.WriteField("x-amz-signature", sig))
+	fw, err := mw.CreateFormFile("file", "f.txt")
+	hx.Must(err)
+	fw.Write([]byte("posted"))
+	hx.Must(mw.Close())
+	var buf bytes.Buffer
+	fmt.Fprintf(&buf, "POST /%s HTTP/1.1\r\nHost: s3.verif\r\nContent-Type: %s\r\nContent-Length: %d\r\n\r\n", rawBucket, mw.FormDataContentType(), body.Len())
+	buf.Write(body.Bytes())
+	req, err := http.ReadRequest(bufio.NewReader(&buf))
+	hx.Must(err)
+	req.RemoteAddr = "127.0.0.1:1"
+	rec := httptest.NewRecorder()
+	panicked := false
+	func() {
+		defer func() {
+			if x := recover(); x != nil {
+				panicked = true
+			}
+		}()
+		w.router2.ServeHTTP(rec, req)
+	}()
+	if panicked {
+		return &s3env.Resp{Status: 599, Header: http.Header{}, Body: []byte("handler panic")}
+	}
+	res := rec.Result()
+	b, _ := ioutil.ReadAll(res.Body)
+	return &s3env.Resp{Status: res.StatusCode, Header: res.Header, Body: b}
+}
+
 // send builds and sends the request of a spec; returns the response.
-func send(e *s3env.Env, s *reqSpec) *s3env.Resp {
-	t := "/" + bucket + "/" + s.rawKey
+func (w *world) send(s *reqSpec) *s3env.Resp {
+	e := w.e
+	bt := "/" + s.rawBkt
+	t := bt + "/" + s.rawKey
 	up := "uploadId=" + url.QueryEscape(s.upload)
 	switch s.route {
 	case "RPut":
@@ -211,7 +357,7 @@ func send(e *s3env.Env, s *reqSpec) *s3env.Resp {
 			sb.WriteString("<Object><Key>" + xmlEscape(k) + "</Key></Object>")
 		}
 		sb.WriteString("</Delete>")
-		return e.Do("POST", "/"+bucket+"?delete", nil, []byte(sb.String()))
+		return e.Do("POST", bt+"?delete", nil, []byte(sb.String()))
 	case "RCopy":
 		h := map[string]string{"X-Amz-Copy-Source": s.src}
 		if s.replace {
@@ -236,20 +382,66 @@ func send(e *s3env.Env, s *reqSpec) *s3env.Resp {
 		return e.Do("PUT", t+"?tagging", nil, []byte(tagBody))
 	case "RDelTag":
 		return e.Do("DELETE", t+"?tagging", nil, nil)
+	case "RList":
+		q := "prefix=" + url.QueryEscape(s.prefix)
+		if s.v2 {
+			q = "list-type=2&" + q + "&start-after=" + url.QueryEscape(s.marker)
+		} else {
+			q += "&marker=" + url.QueryEscape(s.marker)
+		}
+		if s.delim {
+			q += "&delimiter=%2F"
+		}
+		return e.Do("GET", bt+"?"+q, nil, nil)
+	case "RListUploads":
+		// prefix only filters the answer in memory; it is sent (hostile) all the same
+		return e.Do("GET", bt+"?uploads&prefix="+url.QueryEscape(s.object), nil, nil)
+	case "RPutBucket":
+		return e.Do("PUT", bt, nil, nil)
+	case "RDeleteBucket":
+		return e.Do("DELETE", bt, nil, nil)
+	case "RHeadBucket":
+		return e.Do("HEAD", bt, nil, nil)
+	case "RPostPolicy":
+		return w.postPolicy(s.rawBkt, s.object)
 	}
 	panic("route " + s.route)
 }
 
 // decodedObject is what the gateway's router extracts as {object}: the decoded
 // request path (net/url, as Go's HTTP server does it) behind "/<bucket>/".
-func decodedObject(rawKey string) string {
-	u, err := url.ParseRequestURI("/" + bucket + "/" + rawKey)
+func decodedObject(rawBkt, bucket, rawKey string) string {
+	u, err := url.ParseRequestURI("/" + rawBkt + "/" + rawKey)
 	hx.Must(err)
+	if !strings.HasPrefix(u.Path, "/"+bucket+"/") {
+		panic("bucket prefix " + u.Path)
+	}
 	return strings.TrimPrefix(u.Path, "/"+bucket+"/")
 }
 
+// genBucket: mostly the fixture's main bucket; its neighbours; names that are not
+// ordinary names (SkipClean(true) lets "." and ".." reach the {bucket} matcher).
+func genBucket(r *hx.Rng) (bucket, raw string) {
+	switch r.Intn(20) {
+	case 0, 1:
+		return "other", "other"
+	case 2:
+		return "bb", "bb"
+	case 3:
+		return "nb", "nb"
+	case 4:
+		return "..", r.PickStr([]string{"..", "%2e%2e", ".%2e"})
+	case 5:
+		return ".", r.PickStr([]string{".", "%2e"})
+	case 6:
+		return ".uploads", ".uploads"
+	}
+	return "b", "b"
+}
+
 func genReq(r *hx.Rng) *reqSpec {
-	s := &reqSpec{route: r.PickStr(routes), part: r.Range(1, 2), kind: "req"}
+	s := &reqSpec{fx: r.PickInt([]int{0, 0, 0, 1, 1, 2}), route: r.PickStr(routes), part: r.Range(1, 2), kind: "req"}
+	s.bucket, s.rawBkt = genBucket(r)
 	key := genKey(r)
 	switch s.route {
 	case "RBatchDelete":
@@ -262,7 +454,7 @@ func genReq(r *hx.Rng) *reqSpec {
 		s.src = r.PickStr(copySources)
 		s.replace = r.Chance(1, 4)
 		if s.replace && r.Bool() {
-			key, s.src = "obj", r.PickStr([]string{"b/obj", "/b/obj"})
+			key, s.src = "obj", r.PickStr([]string{s.bucket + "/obj", "/" + s.bucket + "/obj"})
 		}
 	case "RCopyPart":
 		s.src = r.PickStr(copySources)
@@ -275,28 +467,59 @@ func genReq(r *hx.Rng) *reqSpec {
 		}
 	case "RComplete":
 		s.upload = r.PickStr(uploadIds)
+	case "RList":
+		s.v2, s.delim = r.Bool(), r.Bool()
+		s.prefix, s.marker = r.PickStr(listPrefixes), r.PickStr(listMarkers)
+		if r.Chance(1, 4) {
+			s.prefix = genKey(r)
+		}
+		if r.Chance(1, 5) {
+			s.marker = genKey(r)
+		}
 	}
-	s.rawKey = rawOf(r, key)
-	s.object = decodedObject(s.rawKey)
+	switch s.route {
+	case "RList", "RPutBucket", "RDeleteBucket", "RHeadBucket":
+		s.object = ""
+	case "RListUploads":
+		s.object = r.PickStr(listPrefixes)
+	case "RPostPolicy":
+		// the form field "key" reaches the handler as it is
+		s.object = key
+		if r.Bool() && !strings.HasPrefix(key, "/") {
+			s.object = "/" + key
+		}
+	default:
+		s.rawKey = rawOf(r, key)
+		s.object = decodedObject(s.rawBkt, s.bucket, s.rawKey)
+	}
 	return s
 }
 
-func witness(route, key, upload, src string, keys []string, kind string) *reqSpec {
-	s := &reqSpec{route: route, rawKey: key, upload: upload, src: src, keys: keys, part: 1, kind: kind}
-	s.object = decodedObject(key)
+func witness(fx int, route, bucket, key, upload, src string, keys []string, kind string) *reqSpec {
+	s := &reqSpec{fx: fx, route: route, bucket: bucket, rawBkt: bucket, rawKey: key, upload: upload, src: src, keys: keys, part: 1, kind: kind}
+	switch route {
+	case "RPostPolicy":
+		s.object = key
+	case "RPutBucket", "RDeleteBucket", "RHeadBucket":
+	default:
+		s.object = decodedObject(bucket, bucket, key)
+	}
 	return s
 }
 
 func coqReq(s *reqSpec) string {
 	route := s.route
-	if route == "RCopy" {
+	switch route {
+	case "RCopy":
 		route = "(RCopy " + hx.Bool(s.replace) + ")"
+	case "RList":
+		route = fmt.Sprintf("(RList %s %s %s %s)", hx.Bool(s.v2), coqStr(s.prefix), coqStr(s.marker), hx.Bool(s.delim))
 	}
 	ks := make([]string, len(s.keys))
 	for i, k := range s.keys {
 		ks[i] = coqStr(k)
 	}
-	return fmt.Sprintf("(mk_req %s sb %s %s %s %s %s)", route, coqStr(s.object), coqStr(s.upload),
+	return fmt.Sprintf("(mk_req %s %s %s %s %s %s %s)", route, coqSeg(s.bucket), coqStr(s.object), coqStr(s.upload),
 		coqSeg(fmt.Sprintf("%04d.part", s.part)), coqStr(s.src), hx.List(ks))
 }
 
@@ -307,40 +530,63 @@ func statusClass(st int) uint64 {
 	return uint64(st / 100)
 }
 
-func runReq(e *s3env.Env, out *hx.Out, s *reqSpec) {
-	build(e)
-	before := outsideSnapshot(e)
+func (w *world) runReq(out *hx.Out, s *reqSpec) {
+	e := w.e
+	build(e, s.fx)
+	before := outsideSnapshot(e, s.bucket)
 	e.Store.Take()
 	e.TakeCalls()
-	resp := send(e, s)
+	e.Master.TakeDeletedCollections()
+	resp := w.send(s)
 	calls := e.TakeCalls()
 	store := e.Store.Take()
-	changed := outsideSnapshot(e) != before
+	changed := outsideSnapshot(e, s.bucket) != before
 	leak := false
-	for _, m := range victimMarks {
-		if strings.Contains(string(resp.Body), m) {
-			leak = true
+	for _, fx := range fixtures {
+		for _, f := range fx {
+			if !f.dir && !inOwn(s.bucket, f.path) && strings.Contains(string(resp.Body), marker(f.path)) {
+				leak = true
+			}
 		}
 	}
-	cs := make([]string, len(calls))
-	for i, c := range calls {
-		cs[i] = coqCall(c)
+	var cs []string
+	for _, c := range calls {
+		if t, ok := coqCall(c); ok {
+			cs = append(cs, t)
+		}
 	}
-	ss := make([]string, len(store))
-	for i, c := range store {
-		ss[i] = hx.Pair(sopName[c.Op], coqStr(deUUID(c.Path)))
+	// the check uses the store log as a set of (op, path): repeated pairs are dropped
+	var ss []string
+	seenStore := map[string]bool{}
+	for _, c := range store {
+		t := hx.Pair(sopName[c.Op], coqStr(deUUID(c.Path)))
+		if !seenStore[t] {
+			seenStore[t] = true
+			ss = append(ss, t)
+		}
 	}
-	term := fmt.Sprintf("CReq %s %s %s %s %s %s", coqReq(s), hx.List(cs), hx.List(ss), hx.N(statusClass(resp.Status)), hx.Bool(changed), hx.Bool(leak))
-	canon := fmt.Sprintf("%s|%s|%s|%s|%v|%v", s.route, s.object, s.upload, s.src, s.replace, s.keys)
+	term := fmt.Sprintf("CReq %s %s %s %s %s %s %s", hx.N(uint64(s.fx)), coqReq(s), hx.List(cs), hx.List(ss), hx.N(statusClass(resp.Status)), hx.Bool(changed), hx.Bool(leak))
+	canon := fmt.Sprintf("fx%d|%s|%s|%s|%s|%s|%v|%v|%v|%s|%s|%v", s.fx, s.route, s.bucket, s.object, s.upload, s.src, s.replace, s.keys, s.v2, s.prefix, s.marker, s.delim)
 	out.Add(term, canon, resp.Status/100 == 2, s.kind)
 	out.Count("route:"+s.route, 1)
 	out.Count(fmt.Sprintf("status:%dxx", resp.Status/100), 1)
+	out.Count(fmt.Sprintf("fixture:%d", s.fx), 1)
+	out.Count("bucket:"+s.bucket, 1)
 	if changed {
 		out.Count("outside-changed", 1)
 	}
 	if leak {
 		out.Count("leak", 1)
 	}
+}
+
+func (w *world) runFix(out *hx.Out, fx int) {
+	build(w.e, fx)
+	var xs []string
+	for _, n := range w.e.Snapshot("/") {
+		xs = append(xs, hx.Pair(coqStr(n.Path), hx.Bool(n.IsDir)))
+	}
+	out.Add(fmt.Sprintf("CFix %s %s", hx.N(uint64(fx)), hx.List(xs)), fmt.Sprintf("fixture|%d", fx), true, "fixture")
 }
 
 // ---------- clean cases ----------
@@ -406,30 +652,50 @@ func runClean(e *s3env.Env, out *hx.Out, r *hx.Rng) {
 
 func main() {
 	out := hx.Flags("C29", 400)
-	out.Rule = "3 of 4 cases: one S3 request on bucket b of a fixed fixture (b with obj, x/y, .uploads/u1/0001.part; bucket other with obj, keep, .uploads/u2/0001.part; /etc/secret), route uniform over 15 routes (put/get/head/delete object, batch delete, copy with/without REPLACE, copy part, new/put-part/complete/abort/list-parts, get/put/delete tagging), key = 1-6 segments over {x,y,obj,new,..,.,empty,.uploads,u1,other,etc,secret,b,buckets,0001.part,%2e%2e} with optional leading/trailing slash or a fixed hostile/benign key, written literally or with %2e%2e / %2f escapes; upload ids and copy sources from fixed hostile lists; the fixture is rebuilt before every request; 1 of 4 cases: a random path over {a,b,..,.,empty,.uploads,buckets} through Go's path.Clean, the real ServeMux, util.JoinPath, FullPath.DirAndName, filepath.Base/Dir; the first 8 cases are fixed witnesses; non-trivial = 2xx answer (request) / cleaning changed the path (clean); distinct = canonical decoded request"
-	e := s3env.New(s3env.Options{})
-	defer e.Close()
+	out.Rule = "first 3 cases: the snapshots of the three fixtures as built (fx0: b with obj, x/y, .uploads/u1/0001.part; other with obj, keep, .uploads/u2/0001.part; /etc/secret. fx1: the upload id is a file, obj a directory, x a file, an empty folder e, a bucket bb, other with .uploads/u1. fx2: empty bucket b, a bucket named .uploads, /obj and /b/obj at the root); then 14 fixed witnesses of the findings and 8 fixed ordinary requests (cross-bucket copy / part copy, put part, complete, batch delete with purge, listing, POST upload); then 3 of 4 cases: one S3 request on a fixture (0,0,0,1,1,2 uniform; rebuilt before every request), bucket b (13/20), other, bb, nb, .uploads, or the names '..' / '.' written literally or percent-encoded, route uniform over 20 routes (put/get/head/delete object, batch delete, copy with/without REPLACE, copy part, new/put-part/complete/abort/list-parts, get/put/delete tagging, list objects V1/V2 x2, list uploads, put/delete/head bucket, POST upload x2 through a second gateway with an identity), key = 1-6 segments over {x,y,obj,new,..,.,empty,.uploads,u1,other,etc,secret,b,buckets,0001.part,%2e%2e,bb,e,%2f,%252e%252e} with optional leading/trailing slash or a fixed hostile/benign key (climbing, non-climbing '..', .uploads via '..'), written literally or with %2e%2e / %2f escapes; upload ids, copy sources (single, double and triple encoded '..' and '/'), listing prefixes and markers from fixed hostile lists or a generated key; 1 of 4 cases: a random path over {a,b,..,.,empty,.uploads,buckets} through Go's path.Clean, the real ServeMux, util.JoinPath, FullPath.DirAndName, filepath.Base/Dir; non-trivial = 2xx answer (request) / cleaning changed the path (clean); distinct = canonical decoded request incl. fixture"
+	w := newWorld()
+	defer w.e.Close()
+	e := w.e
 	root := hx.NewRng(out.Seed)
 
 	witnesses := []*reqSpec{
-		witness("RGet", "x/../../other/obj", "", "", nil, "witness-k0-get"),
-		witness("RBatchDelete", "k", "", "", []string{"x/../../other/obj"}, "witness-k0-batch"),
-		witness("RAbort", "k", "../../other", "", nil, "witness-k0-abort"),
-		witness("RGetTag", "x/../../other/obj", "", "", nil, "witness-k0-tag"),
-		witness("RCopy", "new", "", "b/../other/obj", nil, "witness-k0-copy"),
-		witness("RPut", "x/../../other/nd/", "", "", nil, "witness-k0-mkdir"),
-		witness("RGet", ".uploads/u1/0001.part", "", "", nil, "witness-k1-get"),
-		witness("RDelete", ".uploads/u1", "", "", nil, "witness-k1-delete"),
+		witness(0, "RGet", "b", "x/../../other/obj", "", "", nil, "witness-k0-get"),
+		witness(0, "RBatchDelete", "b", "k", "", "", []string{"x/../../other/obj"}, "witness-k0-batch"),
+		witness(0, "RAbort", "b", "k", "../../other", "", nil, "witness-k0-abort"),
+		witness(0, "RGetTag", "b", "x/../../other/obj", "", "", nil, "witness-k0-tag"),
+		witness(0, "RCopy", "b", "new", "", "b/../other/obj", nil, "witness-k0-copy"),
+		witness(0, "RPut", "b", "x/../../other/nd/", "", "", nil, "witness-k0-mkdir"),
+		witness(0, "RGet", "b", ".uploads/u1/0001.part", "", "", nil, "witness-k1-get"),
+		witness(0, "RDelete", "b", ".uploads/u1", "", "", nil, "witness-k1-delete"),
+		witness(0, "RGet", "b", "x/../.uploads/u1/0001.part", "", "", nil, "witness-k1-dotdot-inside"),
+		witness(0, "RDeleteBucket", ".", "", "", "", nil, "witness-k2-delete-dot"),
+		witness(0, "RGet", "..", "etc/secret", "", "", nil, "witness-k2-get-dotdot"),
+		witness(0, "RPostPolicy", "oth", "er/obj", "", "", nil, "witness-k3-post"),
+		witness(0, "RPostPolicy", "b", "newobj", "", "", nil, "witness-k3-post-sibling"),
+		{fx: 0, route: "RList", bucket: "b", rawBkt: "b", prefix: "../other/", kind: "witness-k0-list", part: 1},
+		// ordinary requests (verdict 0): the successful path of the routes that address two
+		// buckets or build their paths from several inputs, on every run
+		witness(0, "RCopy", "b", "new", "", "other/obj", nil, "plain-copy-cross-bucket"),
+		witness(0, "RCopyPart", "b", "k", "u1", "other/obj", nil, "plain-copypart-cross-bucket"),
+		witness(0, "RCopyPart", "other", "k", "u2", "b/x/y", nil, "plain-copypart-cross-bucket-2"),
+		witness(0, "RPutPart", "b", "k", "u1", "", nil, "plain-putpart"),
+		witness(0, "RComplete", "b", "x/done", "u1", "", nil, "plain-complete"),
+		witness(0, "RBatchDelete", "b", "k", "", "", []string{"x/y", "obj"}, "plain-batch-purge"),
+		{fx: 0, route: "RList", bucket: "b", rawBkt: "b", prefix: "x/", marker: "", delim: true, v2: true, kind: "plain-list", part: 1},
+		witness(1, "RPostPolicy", "b", "/posted/obj", "", "", nil, "plain-post"),
 	}
+	nfix := len(fixtures)
 	for i := 0; i < out.N; i++ {
 		r := root.Fork()
 		switch {
-		case i < len(witnesses):
-			runReq(e, out, witnesses[i])
+		case i < nfix:
+			w.runFix(out, i)
+		case i < nfix+len(witnesses):
+			w.runReq(out, witnesses[i-nfix])
 		case i%4 == 3:
 			runClean(e, out, r)
 		default:
-			runReq(e, out, genReq(r))
+			w.runReq(out, genReq(r))
 		}
 	}
 	out.Write()
